@@ -479,10 +479,9 @@ def replay_native(ctx, inst, inputs, san=True, replay_file=None):
     """Compile the same harness natively against /repo's sources and run it on
     the recorded inputs.  Returns (outcome, detail): outcome in
     reproduced-assert | reproduced-sanitizer | not-reproduced | assume-failed | error."""
-    if inst.link == "lib":
-        want = [u for u in LIB_UNITS + (list(SIMD_UNITS) if inst.simd else []) if u not in inst.exclude]
-    else:
-        want = list(inst.link or [])
+    # the native replay always links the whole library (unit harnesses that #include a
+    # unit shadow its symbols: harness object first + --allow-multiple-definition)
+    want = [u for u in LIB_UNITS + (list(SIMD_UNITS) if inst.simd else []) if u not in inst.exclude]
     objs, flags = ctx.native_lib(san=san, simd=inst.simd, extra_defs=inst.lib_defs, units=want)
     d = tempfile.mkdtemp(prefix="replay-", dir=ctx.work)
     if replay_file is None:
@@ -494,7 +493,7 @@ def replay_native(ctx, inst, inputs, san=True, replay_file=None):
     cmd = (["gcc", "-w", "-DVP_REPLAY", os.path.join(HARNESS, inst.harness), os.path.join(HARNESS, "vp_replay.c")]
            + [os.path.join(MODELS, m) for m in inst.models if m not in ("env_stubs.c", "x86_builtins.c", "libm_stubs.c")]
            + flags + ctx.cppflags(inst.simd, ctor=True) + defs_to_flags(inst.defines) + simd_flags + shadow_flags(ctx, inst, d)
-           + [objs[u] for u in units] + ["-o", exe, "-lm", "-lpthread"])
+           + [objs[u] for u in units] + ["-Wl,--allow-multiple-definition", "-o", exe, "-lm", "-lpthread"])
     r = subprocess.run(cmd, capture_output=True, text=True)
     if r.returncode != 0:
         return "error", "native harness build failed: " + r.stderr[-3000:]
